@@ -177,6 +177,8 @@ def simple_text(s):
         return "CONST " + s["name"] + " = " + emit_expr(s["expr"])
     if k == "end":
         return "END"
+    if k == "exit":
+        return "EXIT " + s["what"]
     if k == "raw":
         return s["text"]
     if k == "comment":
@@ -206,8 +208,15 @@ class Emitter:
             return self.rng.choice(self.eol)
         return self.eol
 
+    def add_line(self, text):
+        e = self._eol()
+        # a line that ends in a lone CR followed by an empty line that ends in LF would read as one CRLF
+        if self.lines and self.lines[-1][1] == "\r" and text == "" and e.startswith("\n"):
+            e = "\r"
+        self.lines.append((text, e))
+
     def newline(self):
-        self.lines.append((self.cur, self._eol()))
+        self.add_line(self.cur)
         self.cur = ""
 
     def text_at(self, text, sid=None, joinable=False):
@@ -215,24 +224,27 @@ class Emitter:
         if self.cur:
             # something joinable is waiting on the current line
             if joinable and self.rng is not None and self.rng.random() < self.noise:
-                self.cur += " : " if self.rng.random() < 0.7 else ":"
+                # "Name:" would read as a label, so a bare SUB call is never followed by a tight colon
+                tight = self.rng.random() >= 0.7 and not getattr(self, "last_text", "").replace("$", "").replace("%", "").isalnum()
+                self.cur += ":" if tight else " : "
             else:
                 self.newline()
         if not self.cur:
             if self.rng is not None and self.rng.random() < self.noise * 0.5:
                 k = self.rng.randrange(3)
                 if k == 0:
-                    self.lines.append(("", self._eol()))
+                    self.add_line("")
                 elif k == 1:
-                    self.lines.append(("' " + "note %d" % self._row(), self._eol()))
+                    self.add_line("' " + "note %d" % self._row())
                 else:
-                    self.lines.append(("   ", self._eol()))
+                    self.add_line("   ")
             ind = " " * (self.indent * self.depth)
             if self.rng is not None and self.rng.random() < self.noise * 0.5:
                 ind = " " * self.rng.randrange(0, 9)
             self.cur = ind
         start = len(self.cur) + 1
         self.cur += text
+        self.last_text = text
         if sid is not None:
             self.spans[sid] = (self._row(), start, len(self.cur) + 1)
         if not joinable:
